@@ -4,5 +4,5 @@ CONSTANTS
   Kinds = {"pid", "local"}
   MaxOps = 6
 SPECIFICATION Spec
-INVARIANTS UtcFixed LocalCurrent PidCurrent Emit
+INVARIANTS UtcFixed LocalCurrent PidCurrent ClockRead Emit
 CHECK_DEADLOCK FALSE
